@@ -338,7 +338,9 @@ impl Rec {
         let before: Vec<(usize, Snap)> = src.iter().filter(|s| !dst.contains(s)).map(|&s| (s, self.snap(s))).collect();
         self.emit_begin(name);
         let g = &mut self.g;
+        IN_OP.store(true, std::sync::atomic::Ordering::Relaxed);
         let res = catch_unwind(AssertUnwindSafe(|| f(g)));
+        IN_OP.store(false, std::sync::atomic::Ordering::Relaxed);
         let mut line = String::with_capacity(256);
         let _ = write!(line, "{{\"op\":\"{}\",\"form\":\"{}\",\"src\":{:?},\"dst\":{:?}", name, form, src, dst);
         if !extra.is_empty() {
@@ -392,8 +394,15 @@ impl Rec {
     }
 }
 
+pub static IN_OP: std::sync::atomic::AtomicBool = std::sync::atomic::AtomicBool::new(false);
+
+/// panics inside a recorded call are data and stay silent; a panic of the harness itself is reported
 pub fn silence_panics() {
-    std::panic::set_hook(Box::new(|_| {}));
+    std::panic::set_hook(Box::new(|info| {
+        if !IN_OP.load(std::sync::atomic::Ordering::Relaxed) {
+            eprintln!("HARNESS PANIC (outside a recorded call): {}", info);
+        }
+    }));
 }
 
 // ---- typed convenience wrappers (register numbers are 0-based within their bank) ----
